@@ -380,12 +380,23 @@ class FileSystemChain(FileSystem[File[FileSystem[Any]]]):
         """
         for sys, prefix in self.systems:
             full_folder = os.path.join(prefix, folder).replace('\\', '/')
+            # Filenames are case-insensitive and either slash is allowed, so strip the prefix by
+            # comparing folded components - os.path.relpath() would produce '../' paths.
+            prefix_parts = [
+                part.casefold()
+                for part in prefix.replace('\\', '/').split('/')
+                if part and part != '.'
+            ]
             for file in sys.walk_folder(full_folder):
-                yield File(
-                    self,
-                    os.path.relpath(file.path, prefix).replace('\\', '/'),
-                    file,
-                )
+                path_parts = file.path.replace('\\', '/').lstrip('/').split('/')
+                if len(path_parts) > len(prefix_parts) and all(
+                    part.casefold() == pref
+                    for part, pref in zip(path_parts, prefix_parts)
+                ):
+                    rel_path = '/'.join(path_parts[len(prefix_parts):])
+                else:
+                    rel_path = os.path.relpath(file.path, prefix).replace('\\', '/')
+                yield File(self, rel_path, file)
 
     def _get_cache_key(self, file: File[Self]) -> int:
         """Return the last modified time of this file.
